@@ -265,6 +265,14 @@ def run(ctx, rep):
         (MACRO, "_ideal_unitary", "exempt", "macros have no unitary"),
     ])
     check_changed_flag(ctx, rep, "C07.3", tr)
+    from .common import position_visited
+    for kq, member in ((BLOCK, "statements"), (LOOP, "statements"), (MACRO, "body")):
+        kname = ix.classes[kq].name
+        cons = f"{cls_construct(ix, relinker)}:{kname}.{member}:visited"
+        if position_visited(ctx, tr, kq, member):
+            rep.ok("C07.3", cons, "children are visited (a macro call below is re-linked)")
+        else:
+            rep.violation("C07.3", cons, f"the re-linking visitor does not visit {kname}.{member}: macro calls below it keep their anonymous definition", ix.classes[relinker].loc())
     for c in ix.mro(relinker):
         if c == "jaqalpaq.core.algorithm.visitor.Visitor":
             continue
